@@ -121,7 +121,7 @@ func (h *VHist) applyWriteImpl(op VOp) (int64, error) {
 			t.DatasetEntities[h.DsName(n)] = es
 			first = es[0]
 		}
-		if err := h.W.Store.ExecuteTransaction(t); err != nil {
+		if err := h.storeVia(op.Via).ExecuteTransaction(t); err != nil {
 			return 0, err
 		}
 		return int64(first.Recorded), nil
@@ -230,6 +230,14 @@ func vCrashChild(dir string, spec CrashSpec) {
 	}
 	for i, op := range spec.Hist {
 		extra, err := apply(op)
+		if op.K == "badbatch" {
+			// the expected answer to this operation is a refusal: that is its acknowledgement
+			if err == nil {
+				err = fmt.Errorf("the batch with a null reference was accepted")
+			} else {
+				err = nil
+			}
+		}
 		if err != nil {
 			fmt.Fprintf(acks, "err %d %s\n", i, strings.ReplaceAll(err.Error(), "\n", " "))
 			continue
